@@ -24,7 +24,7 @@ ASSUMPTIONS = [
 ]
 MONITORS = ("status answers vs os.walk listing; FaultyFS counters prove both lookup strategies ran; wrappers on ObjectDBIndex.update/clear "
             "log what was indexed; index content vs upload log + present directory objects after every step")
-REQUIRED_COUNTERS = ["index_handles_closed_and_reused", "histories_with_an_empty_directory", "stores_opened_through_non_canonical_path", "stores_of_another_algorithm", "many_indexed_directories_cases", "histories_with_second_store_index", "second_store_queries", "expanded_transfer_steps", "dir_vanished_mid_transfer_steps", "expanded_status_queries_with_index", "handle_wrote_before_foreign_writes", "source_lost_files", "unprotected_valid_objects", "two_handle_histories", "status_queries", "strategy/per-object-exists", "strategy/traverse", "compare_status_calls", "expanded_queries",
+REQUIRED_COUNTERS = ["status_queries_from_inside_an_abandoned_index_walk", "compare_status_calls_relying_on_the_default", "index_handles_closed_and_reused", "histories_with_an_empty_directory", "stores_opened_through_non_canonical_path", "stores_of_another_algorithm", "many_indexed_directories_cases", "histories_with_second_store_index", "second_store_queries", "expanded_transfer_steps", "dir_vanished_mid_transfer_steps", "expanded_status_queries_with_index", "handle_wrote_before_foreign_writes", "source_lost_files", "unprotected_valid_objects", "two_handle_histories", "status_queries", "strategy/per-object-exists", "strategy/traverse", "compare_status_calls", "expanded_queries",
                      "histories", "history_steps", "index_checks", "index_updates_seen", "index_clears_seen", "external_deletions",
                      "failed_transfer_steps", "indexed_dir_exists_checked", "store/local", "store/remote", "store/base"]
 
@@ -178,7 +178,11 @@ def run_shard(ctx):
                         put(sroot, o, dirs[o][1])
                         src_present.add(o)
             check_deleted = rng.random() < 0.6
-            cs = compare_status(src, odb, ids, check_deleted=check_deleted, cache_odb=cache, shallow=not expanded, jobs=jobs)
+            # (looking for deletions is the default: a caller that wants it need not say so)
+            cdkw = {} if (check_deleted and rng.random() < 0.5) else {"check_deleted": check_deleted}
+            if not cdkw:
+                res.count("compare_status_calls_relying_on_the_default")
+            cs = compare_status(src, odb, ids, cache_odb=cache, shallow=not expanded, jobs=jobs, **cdkw)
             sobjs, _t2, _s2 = list_store(sroot)
             snow = set(sobjs)
             okk, mis, new, dele = ({h.value for h in x} for x in (cs.ok, cs.missing, cs.new, cs.deleted))
@@ -371,7 +375,16 @@ def run_shard(ctx):
                     if exp_q:
                         sub = {i for i in sub if i.isdir} or {sc.trees[0]["hi"]}
                         res.count("expanded_status_queries_with_index")
+                    walk_ = None
+                    if rng.random() < 0.3:
+                        # the caller is walking through what the index knows and asks for the status from inside its loop - which it
+                        # then leaves early (the walk is abandoned half way)
+                        walk_ = index.intersection({t["oid"] for t in sc.trees} | set(sc.file_oids()))
+                        if next(walk_, None) is not None:
+                            res.count("status_queries_from_inside_an_abandoned_index_walk")
                     st = status(sc.dest, sub, index=index, cache_odb=rng.choice([sc.src, treecache]), jobs=rng.choice([1, 4]), shallow=not exp_q)
+                    if walk_ is not None:
+                        walk_.close()
                     objs, _t, _s = list_store(sc.dest_root)
                     log.append(("status", len(sub), len(st.exists), "expanded" if exp_q else "shallow"))
                     # (files listed by a directory object that is present are assumed to exist: only directories are judged below)
